@@ -189,9 +189,34 @@ func (mc *c19Machine) verifyAll(t *rapid.T) {
 	if mc.ev.Verify(nil) == nil {
 		mc.fail(t, "Verify(nil) succeeds")
 	}
+	if mc.ev.Claims != nil {
+		if msg := evidenceIDsAgree(mc.ev); msg != "" {
+			mc.fail(t, "%s", msg)
+		}
+	}
 	if mc.lastFailed {
 		mc.sawFailThenVerify = true
 	}
+}
+
+// evidenceIDsAgree: what the Evidence's own accessors expose of the attached
+// claims (the instance id used to look up the verification key, the
+// implementation id) is what the claims' getters give - and a nil pointer
+// when the getter does not give a value.
+func evidenceIDsAgree(ev *psatoken.Evidence) string {
+	inst, ierr := ev.Claims.GetInstID()
+	if p := ev.GetInstanceID(); (p == nil) != (ierr != nil) {
+		return fmt.Sprintf("Evidence.GetInstanceID() = %v although the attached claims' GetInstID() gives (%x, %v)", p, inst, ierr)
+	} else if p != nil && !bytes.Equal(*p, inst) {
+		return fmt.Sprintf("Evidence.GetInstanceID() = %x, the attached claims hold %x", *p, inst)
+	}
+	impl, merr := ev.Claims.GetImplID()
+	if p := ev.GetImplementationID(); (p == nil) != (merr != nil) {
+		return fmt.Sprintf("Evidence.GetImplementationID() = %v although the attached claims' GetImplID() gives (%x, %v)", p, impl, merr)
+	} else if p != nil && !bytes.Equal(*p, impl) {
+		return fmt.Sprintf("Evidence.GetImplementationID() = %x, the attached claims hold %x", *p, impl)
+	}
+	return ""
 }
 
 func c19Run(t *rapid.T, st *Stats) {
